@@ -346,6 +346,11 @@ pub fn share_len_fields(b: &[u8]) -> Vec<usize> {
 const BOUNDARY: &[u32] = &[0, 1, 23, 24, 25, 48, 63, 64, 65, 0x7fff_ffff, 0x8000_0000, 0xffff_fffb, 0xffff_fffc, 0xffff_fffd, 0xffff_fffe, 0xffff_ffff];
 
 pub fn wire(tier: &str, seed: u64) {
+  wire_inputs(tier, seed, &mut |k, b| wire_case(k, b));
+}
+
+/// the generator of the `wire` stream, shared with the C08/C09 oracles
+pub fn wire_inputs(tier: &str, seed: u64, wire_case: &mut dyn FnMut(&str, &[u8])) {
   let mut g = Sm::new(seed, "wire");
   let q = quick(tier);
   let rounds = if q { 3 } else { 25 };
